@@ -1098,21 +1098,25 @@ def key_rebind(ctx, which=(FB, FF)):
 
 
 # ---------------------------------------------------------------- RESULT-INDEX
-def result_index(ctx, modules=('filters',)):
+def result_index(ctx, modules=('filters',), floor=10):
     """Every table the filters hand out is indexed by time (`all standard-deviation and
     sensor-estimate tables are ... indexed by a strictly increasing subset of the trajectory
     times`, innovations `stamped with its own time`).  A pandas.DataFrame built without an index
     argument is numbered 0..n-1 (survey: `index=trajectory.index` dropped from the result helpers
     passed every check)."""
-    ctx.rule('RESULT-INDEX', 'every DataFrame constructed in the filter module is given an index '
-             '(the time axis of the rows)')
+    ctx.rule('RESULT-INDEX', 'every DataFrame / Series constructed from array data is given an index '
+             '(the time axis of the rows, the labels of a row): on the pinned tree all 60-odd '
+             'constructions of the package do')
     n = 0
     for f in ctx.repo.all_functions():
-        if f.module.name.split('.')[-1] not in modules:
+        if modules and f.module.name.split('.')[-1] not in modules:
+            continue
+        if '.tests' in f.module.name:
             continue
         loc = f.local_names()
         for c in ast.walk(f.node):
-            if not (isinstance(c, ast.Call) and f.module.resolve(c.func, loc) == 'pandas.DataFrame'):
+            if not (isinstance(c, ast.Call) and f.module.resolve(c.func, loc) in (
+                    'pandas.DataFrame', 'pandas.Series')):
                 continue
             n += 1
             has = len(c.args) >= 2 or any(kw.arg == 'index' for kw in c.keywords) or \
@@ -1120,13 +1124,16 @@ def result_index(ctx, modules=('filters',)):
             # a table made from another table / dict of Series keeps that index
             src = c.args[0] if c.args else next((kw.value for kw in c.keywords
                                                  if kw.arg == 'data'), None)
-            keeps = isinstance(src, ast.Dict)
+            keeps = isinstance(src, ast.Dict) or src is None
             ctx.ob('RESULT-INDEX', has or keeps, None, '%s: `%s` is indexed' % (
                 f.qualname, norm_text(c)[:40]), f=f, node=c,
                 key='index-%s-%s' % (f.qualname, norm_text(c)[:40]),
                 why='`%s` builds a result table without an index: its rows are numbered 0..n-1 '
                     'instead of carrying the times they belong to' % norm_text(c)[:80])
-    ctx.floor('RESULT-INDEX', n, 10, 'DataFrame constructions in the filter module')
+    if floor:
+        ctx.floor('RESULT-INDEX', n, floor, 'DataFrame constructions in the filter module')
+    else:
+        ctx.ob('RESULT-INDEX', True, None, '%d pandas constructions examined' % n, key='summary')
 
 
 # ---------------------------------------------------------------- EMPTY-GUARD
